@@ -414,7 +414,7 @@ func c13(c *core.Ctx) {
 	checkCode := func(fn *ssa.Function, key string, code int64, what string) {
 		found := false
 		for _, cs := range ssax.Calls(fn, false, ssax.ByFunc(newErr)) {
-			if k, isC := constInt(cs.Instr.Common().Args[0]); isC && k == code {
+			if k, isC := constInt(rawArgs(cs.Instr)[0]); isC && k == code {
 				found = true
 			}
 		}
@@ -460,7 +460,7 @@ func c13(c *core.Ctx) {
 		c.Violation("C13.R5", "fifo.Check|evict", fpos(c, ck), fmt.Sprintf("eviction must remove one list element and one index entry (found %d / %d)", len(rmv), len(dels)))
 	} else {
 		removed := ssax.Args(rmv[0].Instr)[0]
-		k := dels[0].Instr.Common().Args[1]
+		k := rawArgs(dels[0].Instr)[1]
 		okKey := false
 		for v := range ssax.Backward(k) {
 			if ssax.LoadOfField("topicalias/fifo.aliasElem.topic")(v) {
@@ -513,7 +513,7 @@ func c13(c *core.Ctx) {
 			return false
 		}
 		b, isB := call.Call.Value.(*ssa.Builtin)
-		return isB && b.Name() == "len" && ssax.AnyIn(ssax.Backward(call.Call.Args[0]), ssax.LoadOfField(owner))
+		return isB && b.Name() == "len" && ssax.AnyIn(ssax.Backward(rawArgs(call)[0]), ssax.LoadOfField(owner))
 	}
 	ssax.Instrs(tb, false, func(_ *ssa.Function, in ssa.Instruction) {
 		bo, ok := in.(*ssa.BinOp)
